@@ -100,7 +100,7 @@ class Report:
                                    rule_text=self.rules.get(v["rule"], {})), fh, indent=1, default=str)
                 print(f"{v['loc']}: {v['key']}: {v['what']}")
                 print(f"VIOLATION property={pid} replay={rp}")
-            rc = 1 if rc == 0 else rc
+            rc = 1      # a reported violation decides the exit status even when a floor was also missed
         passes = [i for i in self.items if i["status"] == "pass"]
         nontriv = {i["key"] for i in self.items if i["nontrivial"]}
         samples = []
